@@ -172,6 +172,15 @@ impl<'a> SendTransactionsProofProcess<'a> {
                 let proof = filtered_block.proof();
                 let indices: Vec<u32> = proof.indices().into_iter().map(|v| v.unpack()).collect();
                 let lemmas: Vec<packed::Byte32> = proof.lemmas().into_iter().collect();
+                // The merkle tree library skips a node which has neither its sibling nor a lemma
+                // left (the transaction would pass unverified) and aborts on the index `u32::MAX`.
+                if required_lemmas_count(&indices) != Some(lemmas.len()) {
+                    let errmsg = format!(
+                        "the transactions merkle proof of filtered block {:#x} is malformed",
+                        filtered_block.header().calc_header_hash()
+                    );
+                    return StatusCode::InvalidProof.with_context(errmsg);
+                }
                 let merkle_proof = MerkleProof::new(indices, lemmas);
                 match merkle_proof
                     .root(
@@ -221,4 +230,31 @@ impl<'a> SendTransactionsProofProcess<'a> {
             .mark_fetching_txs_missing(&missing_tx_hashes);
         Status::ok()
     }
+}
+
+/// Replays `MerkleProof::root` on the indices only.
+///
+/// Returns the count of the lemmas which are required to reach the root from the nodes with these
+/// indices, or `None` if the nodes do not end up in the root alone.
+pub(crate) fn required_lemmas_count(indices: &[u32]) -> Option<usize> {
+    if indices.iter().any(|index| *index == u32::MAX) {
+        return None;
+    }
+    let mut sorted = indices.to_vec();
+    sorted.sort_by_key(|index| std::cmp::Reverse(*index));
+    let mut queue: std::collections::VecDeque<u32> = sorted.into();
+    let mut count = 0;
+    while let Some(index) = queue.pop_front() {
+        if index == 0 {
+            return if queue.is_empty() { Some(count) } else { None };
+        }
+        let sibling = ((index + 1) ^ 1) - 1;
+        if queue.front() == Some(&sibling) {
+            queue.pop_front();
+        } else {
+            count += 1;
+        }
+        queue.push_back((index - 1) >> 1);
+    }
+    None
 }
